@@ -891,6 +891,10 @@ def run(ctx):
     if not b["ok"] and not found:
         ctx.violation("theorem-broken", f"{b.get('failed_lemma')} in {b['file']}",
                       {"theorem": b.get("failed_lemma"), "file": b["file"], "coq_output": b["out"][-1500:]})
+    if _TMP["dir"] is not None:      # the temporary bundles of this run
+        import shutil
+        shutil.rmtree(_TMP["dir"], ignore_errors=True)
+        _TMP["dir"] = None
     ctx.corr.update({k: int(v) for k, v in stats.items()})
     total = n_model + stats["calls"] + stats["unlisted_probes"] + stats["caller_calls"] + stats["getter_roundtrips"]
     ctx.corr["evaluations"] = total
